@@ -196,10 +196,10 @@ def run(rep):
     accept_inconclusive(rep)
 
 
-def accept_inconclusive(rep):
+def accept_inconclusive(rep, fname="c06_inconclusive.json"):
     """Inconclusive obligations are compared with the frozen table spec/c06_inconclusive.json: the ones
     listed there (with a reason) are clauses the claim does not cover; a new one is analysis-incomplete."""
-    path = os.path.join(C.SPEC, "c06_inconclusive.json")
+    path = os.path.join(C.SPEC, fname)
     accepted = {}
     if os.path.exists(path):
         accepted = json.load(open(path))
@@ -208,7 +208,7 @@ def accept_inconclusive(rep):
         if i["what"] not in accepted:
             new.append(i)
     rep.analysed["inconclusive_accepted"] = len(rep.inconclusive) - len(new)
-    if os.environ.get("VERIF_FREEZE_C06"):
+    if os.environ.get("VERIF_FREEZE_INCONCLUSIVE") == rep.pid:
         json.dump({i["what"]: i["detail"] for i in rep.inconclusive}, open(path, "w"), indent=0, sort_keys=True)
         new = []
     rep.inconclusive = new
